@@ -379,7 +379,12 @@ func (v *Value) Contains(other *Value) bool {
 	case reflect.Slice, reflect.Array:
 		for i := 0; i < baseValue.Len(); i++ {
 			item := baseValue.Index(i)
-			if other.EqualValueTo(AsValue(item.Interface())) {
+			itemValue, isValue := item.Interface().(*Value)
+			if !isValue {
+				// (the items of an in-template list like [1, 2] are values already)
+				itemValue = AsValue(item.Interface())
+			}
+			if other.EqualValueTo(itemValue) {
 				return true
 			}
 		}
